@@ -163,9 +163,9 @@ def lite_world(lites, ndef=None, formatted=True, key=None):
     return make
 
 
-def t4_world(fwi, ndef=None, **kw):
+def t4_world(fwi, ndef=None, fsci=8, cmiu=253, **kw):
     def make():
-        return S.T4World(S.t4_card(MSG if ndef is None else ndef, **kw), fwi=fwi)
+        return S.T4World(S.t4_card(MSG if ndef is None else ndef, **kw), fwi=fwi, fsci=fsci, cmiu=cmiu)
     return make
 
 
@@ -337,6 +337,23 @@ def scenarios():
             'send_apdu', tier=tier)
         add(nm + '/transceive', 'tt4', w4, lambda w: w.tag.transceive(bytes.fromhex('00A4040007D276000085010100')),
             'transceive', tier=tier)
+    # ---- Type 4: responses chained over 2, 6, 7 and 12 blocks (READ BINARY of a long NDEF file with Le = MLe, the card
+    #      sends 16 INF bytes per block), commands chained over several blocks (FSCI 0-2: FSC 16/24/32)
+    for mle, nblk in ((30, 2), (94, 6), (110, 7), (190, 12)):
+        for fwi in (8, 10, 11):
+            if fwi != 8 and nblk in (6, 12):
+                continue
+            wc = t4_world(fwi, ndef=longmsg(230), cmiu=16, mle=mle, mlc=48, mfs=512)
+            nm = 't4/chain%d/fwi%d' % (nblk, fwi)
+            add(nm + '/ndef-read', 'tt4', wc, read_ndef, 'ndef')
+            if fwi == 8:
+                add(nm + '/dump', 'tt4', wc, lambda w: w.tag.dump(), 'dump', lists=True,
+                    tier='quick' if nblk in (2, 7) else 'thorough')
+    for fsci in (0, 2):
+        wf = t4_world(8, ndef=longmsg(60), fsci=fsci, cmiu=13, mle=40, mlc=40, mfs=256)
+        nm = 't4/fsci%d' % fsci
+        add(nm + '/ndef-read', 'tt4', wf, read_ndef, 'ndef')
+        add(nm + '/ndef-write', 'tt4', wf, write_op(longmsg(90)), 'NDEF.octets=', prep=prep_ndef)
     return L
 
 
@@ -445,6 +462,11 @@ class Sweep(object):
                 viol('wrong-error-class:' + o[1], 'TagCommandError of another tag type')
             elif kind in 'TXP' and o[2] <= 0 and o[2] != S.KIND_ERRNO[kind]:
                 viol('reason-code:%d' % o[2], 'reason code %d does not match the persistent %s error' % (o[2], kname))
+            elif kind in 'TXP' and r['trace'] and r['trace'][-1][1] in (kind, kind.lower()) and o[2] != S.KIND_ERRNO[kind]:
+                # the last thing on the air was the injected error: the TagCommandError is about that error (a tag
+                # specific code > 0 needs a tag that answered something afterwards)
+                viol('reason-code:%d' % o[2], 'the operation ends on the %s error with reason code %d instead of %d'
+                     % (kname, o[2], S.KIND_ERRNO[kind]))
         else:
             v = o[1]
             ok = (o == base['obs']) or any(v is f or (f is not None and f is not False and v == canon(f)) for f in scn.fail) \
